@@ -13,6 +13,7 @@ import (
 
 	"github.com/openconfig/goyang/pkg/yang"
 	"verif/mc/core"
+	"verif/mc/gen/scale"
 	"verif/mc/gen/lexspace"
 	"verif/mc/ref/rfcread"
 )
@@ -149,8 +150,9 @@ func inject(s string) []injected {
 			add("string-instead-of-terminator", string(rs[:o])+" 'z\n\tz' "+string(rs[o:]), t.Line, t.Col+1)
 			add("concatenated-string-instead-of-terminator", string(rs[:o])+" \"z\" +\n 'y'\n+ \"x\" "+string(rs[o:]), t.Line, t.Col+1)
 		}
-		if t.Kind == 1 && t.Double {
-			// 4. invalid escape right after the opening quote
+		if t.Kind == 1 && t.Double && !(ti > 0 && toks[ti-1].Kind == 0 && toks[ti-1].Text == "pattern") {
+			// 4. invalid escape right after the opening quote (not in the argument of a pattern
+			// statement, where unknown escapes are kept)
 			for _, e := range []string{"\\q", "\\é", "\\\n", "\\ "} {
 				add("bad-escape", string(rs[:o+1])+e+string(rs[o+1:]), t.Line, t.Col+1)
 			}
@@ -226,6 +228,13 @@ func longTexts(n int) []string {
 			}
 		}
 		run := string(rs)
+		if mb == -1 {
+			la, _ := scale.LongArgs(n)
+			out = append(out, la.Text)
+			if n%16 == 0 {
+				out = append(out, scale.Counts(n/4).Text)
+			}
+		}
 		tok := strings.ReplaceAll(run, " ", "_")
 		out = append(out,
 			`k "`+run+`"; q r; s "t" { u v; }`,
